@@ -187,12 +187,12 @@ theorem C14_winner_spec (e : Env) (base : Name) (files : List Name) (f : Name) :
 
 /-- **C14_import_gate** — a module is imported only if it is the module of a yielded file and passes
 `--module`; a module excluded by the filter is never imported. -/
-theorem C14_import_gate (e : Env) (accept : List Name → Bool) (roots : List (List Name × Tree)) (m : List Name)
-    (h : m ∈ importedModules e accept roots) :
-    accept m = true ∧ ∃ p ∈ findTestFiles e roots, moduleName e (roots.map (·.1)) p = some m := by
+theorem C14_import_gate (e : Env) (accept : List Name → Bool) (roots : List (List Name × Tree))
+    (pkgs : List (List Name)) (m : List Name) (h : m ∈ importedModules e accept roots pkgs) :
+    accept m = true ∧ ∃ p ∈ findTestFiles e roots, moduleName e roots pkgs p = some m := by
   unfold importedModules at h
   obtain ⟨p, hp, hm⟩ := List.mem_filterMap.1 h
-  cases hmod : moduleName e (roots.map (·.1)) p with
+  cases hmod : moduleName e roots pkgs p with
   | none => simp [hmod] at hm
   | some m' =>
     simp only [hmod] at hm
@@ -201,6 +201,27 @@ theorem C14_import_gate (e : Env) (accept : List Name → Bool) (roots : List (L
       subst hm
       exact ⟨ha, p, hp, hmod⟩
     · simp [ha] at hm
+
+/-- **C14_module_name_has_package** — the name the `--module` patterns see is the imported dotted
+name: it starts with the package of the search path the file was found under (C08 applies the
+patterns to this name). -/
+theorem C14_module_name_has_package (e : Env) (roots : List (List Name × Tree)) (pkgs : List (List Name))
+    (p m : List Name) (h : moduleName e roots pkgs p = some m) :
+    (yieldPkg e roots pkgs p).isPrefixOf m = true := by
+  unfold moduleName at h
+  simp only at h
+  split at h
+  · cases h
+  · split at h
+    · cases h
+    · rename_i f _
+      cases hs : stripPyExt e f with
+      | none => rw [hs] at h; cases h
+      | some noext =>
+        rw [hs] at h
+        simp only [Option.map_some, Option.some.injEq] at h
+        subst h
+        simp [List.append_assoc]
 
 /-- the facts the walk relies on, from the source -/
 theorem C14_ignore_folders : Facts.ignoreFolders = [".git", "__pycache__", "node_modules"] ∧
